@@ -161,6 +161,43 @@ theorem pattern_recompiled (h : Heap) (a : Nat) (kw : Kw) (v : AVal)
   simp only [newAttrRec, hp, hr, hv', Bool.false_eq_true, if_false]
   simp [kwLookup]
 
+/-- delayed child attributes, precedence: `append_field` and `insert_field` customise the new field first with the
+    variant's `child_attrs_all`, then with the `child_attrs` entry given for that field name ... -/
+theorem delayed_general_then_specific (fuel : Nat) (name : String) (t c idx : Nat) :
+    appendImpl facts15 fuel name t c = (do
+        let t2 ← (do
+          let t1 ← delayedAll facts15 fuel c t
+          delayedOne facts15 fuel c name t1 false)
+        updCls c (fun cl => { cl with fields := odictSet cl.fields name t2 }))
+    ∧ insertImpl facts15 fuel idx name t c = (do
+        let t2 ← (do
+          let t1 ← delayedAll facts15 fuel c t
+          delayedOne facts15 fuel c name t1 true)
+        updCls c (fun cl => { cl with fields := odictInsert cl.fields idx name t2 })) := by
+  have h1 : facts15.delayAppend = .allFirst := by decide
+  have h2 : facts15.delayInsert = .allFirst := by decide
+  constructor
+  · simp only [appendImpl, delayedBoth, h1]
+  · simp only [insertImpl, delayedBoth, h2]
+
+/-- ... so the specific entry beats the general one (as it does for fields that existed when the variant was made):
+    after customising a primitive with `d` and the result with `e`, each attribute is `e`'s write, else `d`'s, else
+    the source's -/
+theorem specific_beats_general (fuel : Nat) (ops : List Op) (t : Nat) (d e : Kw) (h1 h2 : Heap) (t1 t2 : Nat) (tc : Cls)
+    (htc : (runOps facts15 fuel (initHeap facts15) ops).cls[t]? = some tc)
+    (r1 : simpleCustomize facts15 t d (runOps facts15 fuel (initHeap facts15) ops) = .ok h1 t1)
+    (r2 : simpleCustomize facts15 t1 e h1 = .ok h2 t2) (k : String) :
+    ∃ c1, h1.cls[t1]? = some c1 ∧ c1.kind = tc.kind ∧
+      attrOf h2 t2 k =
+        match kwLookup (newAttrRec facts15 h1 c1.attrs (if c1.kind == .number then numberKw facts15 h1 c1.attrs e else e)).own k with
+        | some v => some v
+        | none =>
+          match kwLookup (newAttrRec facts15 (runOps facts15 fuel (initHeap facts15) ops) tc.attrs
+              (if tc.kind == .number then numberKw facts15 (runOps facts15 fuel (initHeap facts15) ops) tc.attrs d else d)).own k with
+          | some v => some v
+          | none => attrOf (runOps facts15 fuel (initHeap facts15) ops) t k :=
+  simpleCustomize_twice_exact facts15 t d e _ h1 h2 t1 t2 (discipline_always fuel ops) tc htc r1 r2 k
+
 /-- `Mandatory(primitive)`: `min_occurs = 1`, `nillable = False`, and `min_len = 1` for Unicode -/
 theorem mandatory_primitive_exact (fuel f : Nat) (ops : List Op) (src : Nat) (h' : Heap) (id : Nat) (sc : Cls)
     (hsc : (runOps facts15 fuel (initHeap facts15) ops).cls[src]? = some sc)
@@ -292,6 +329,15 @@ example : ((s7.heap.cls[23]?).bind (fun c => (c.fields.head?).map (fun p => attr
 -- Integer32(ge=0) keeps the length guard of Integer32
 example : attrOf s8.heap 25 "max_str_len" = attrOf s8.heap 3 "max_str_len" ∧ attrOf s8.heap 25 "ge" = some (.int 0) := by
   decide +kernel
+-- A.customize(child_attrs_all={min_occurs: 1}, child_attrs={later: {min_occurs: 2}}); A.append_field('later', Integer):
+-- in the variant the field carries the specific value
+def d1 := apply facts15 1000 (initHeap facts15) (.subclass none "A" none [("a", 0)] [] none)
+def d2 := apply facts15 1000 d1.heap (.customize 12 [] (some [("later", [("min_occurs", .int 2)])]) (some [("min_occurs", .int 1)]))
+def d3 := apply facts15 1000 d2.heap (.append 12 "later" 0)
+example : ((d3.heap.cls[13]?).bind (fun c => (odictGet c.fields "later").map (fun t => attrOf d3.heap t "min_occurs")))
+    = some (some (.int 2))
+    ∧ ((d3.heap.cls[13]?).bind (fun c => (odictGet c.fields "a").map (fun t => attrOf d3.heap t "min_occurs")))
+    = some (some (.int 1)) := by decide +kernel
 -- Unicode(pattern='[a-z]+')(pattern='[0-9]+'): validation follows the second pattern
 def p1 := apply facts15 1000 (initHeap facts15) (.customize 1 [("pattern", .str "[a-z]+")] none none)
 def p2 := apply facts15 1000 p1.heap (.customize 12 [("pattern", .str "[0-9]+")] none none)
